@@ -150,6 +150,9 @@ def run():
     # ... and Paint.tla the painting helpers (half blocks, lines)
     from props import paintlib
     paintlib.run_into(c, thorough)
+    # ... and Links.tla the hyperlink ranges
+    from props import linkslib
+    linkslib.run_into(c, thorough)
     area_reports, c.reports = c.reports[n_before:], c.reports[:n_before]
     summ = {}
     try:
